@@ -1,14 +1,17 @@
-// Kani bounded stand-in for the GLUE of vba::VbaProject::from_cfb (C18), compositional variant.
-// This module is appended to src/vba.rs (it has to construct the private `Module` records); the compound-file images come from
-// kani/vbaproj.rs (appended to src/cfb.rs, which can fill the private fields of `Cfb`).
+// Kani bounded stand-in for the GLUE of vba::VbaProject::from_cfb (C18), compositional variants.
+// This module is appended to src/vba.rs (it has to construct the private `Module` records); the compound-file images and the models
+// of cfb functions come from kani/vbaproj.rs (appended to src/cfb.rs, which can fill the private fields of `Cfb`): "needs": ["vbaproj"].
 //
 // The three dir-stream parsers called by from_cfb are replaced by MODELS that return what their Verus contracts (unit vbadec:
 // read_modules / check_variable_record / ...) say they return for the project  { module "A": stream "SB", TextOffset 0;
-// module "B": stream "SA", TextOffset 3 }, no references, code page 1252.  Everything else is the REAL code: from_cfb itself (the
-// closure pipeline `mods.into_iter().map(|m| cfb.get_stream(&m.stream_name, r) ... decompress_stream(&s[m.text_offset..]) ... (m.name, s))
-// .collect::<Result<BTreeMap,_>>()`), Cfb::get_stream / Sectors::get_chain / Sectors::get, decompress_stream, BTreeMap, and the accessors.
-// Why: with the real parsers CBMC's symbolic execution loses the constants of the dir stream after read_dir_information and unrolls
-// every record alternative of Reference::from_stream / read_modules (measured: no result in 40 min, see kani/vbaproj.rs).
+// module "B": stream "SA", TextOffset 3 }, no references, code page 1252.  The REAL code that remains is from_cfb itself (the closure
+// pipeline `mods.into_iter().map(|m| cfb.get_stream(&m.stream_name, r) ... decompress_stream(&s[m.text_offset..]) ... (m.name, s))
+// .collect::<Result<BTreeMap,_>>()`), BTreeMap, the accessors and -- depending on the harness -- Cfb::get_stream / decompress_stream.
+//
+// STATUS (measured): none of these harnesses terminates within 10..15 minutes either; they are NOT registered ("harnesses": [] in
+// kani/vbaprojv.json, measurements under "unfinished").  The blocker that remains when everything else is modelled
+// (from_cfb_closure_min) is the std code behind `collect::<Result<BTreeMap<String, Vec<u8>>, _>>()`: the in-place collect makes the
+// number of pairs non-constant for CBMC's symbolic execution and BTreeMap::from_iter's stable sort (driftsort, quicksort) is unrolled.
 
 use crate::cfb::verif_kani_vbaproj as img;
 
